@@ -299,6 +299,34 @@ def run_format(signed, bits, frac, acc, floats=None):
                     "value is %r" % ((signed, bits, frac), x, x.hex(), g, w),
                     size=bits)
                 break
+        # element-wise: the result for one element must not depend on what
+        # else is in the array (every value alone, and next to an in-range
+        # neighbour; the full-alphabet array above always contains values
+        # beyond both ends)
+        for x, w in zip(fl, refs):
+            for a in (np.array([x], dtype=np.float64),
+                      np.array([[0.0, x]], dtype=np.float64)):
+                acc.evaluations += 1
+                try:
+                    with warnings.catch_warnings():
+                        warnings.simplefilter("ignore")
+                        g = int(aconv(a).reshape(-1)[-1])
+                except Exception as e:
+                    g = e
+                if g != w:
+                    acc.violation(
+                        dict(kind="array_value_alone", bits=bits,
+                             end="high" if w == hi else "low" if w == lo
+                             else "in"),
+                        dict(fmt, x=x.hex(), array=True),
+                        "NumpyFloatToFixConverter%r(array%r) gives %r for "
+                        "%r [%s], scalar/exact value is %r"
+                        % ((signed, bits, frac), a.shape, g, x, x.hex(), w),
+                        size=bits)
+                    break
+            else:
+                continue
+            break
         # shapes
         pick = [fl[0], fl[len(fl) // 2], fl[-1], fl[len(fl) // 3]]
         for shape in ((), (1,), (3,), (2, 2)):
